@@ -239,6 +239,21 @@ def check(ctx):
             want_idx = ("op", "-", ("op", "-", ln(vs), ln(("a", tfp, "batch_shape"))),
                         ln(("a", tfp, "event_shape")))
             ok_shape = shp == ("s", vs, ("slice", c(None), want_idx, c(None)))
+            if not ok_shape and shp is not None and shp[0] == "s" and shp[1] == vs \
+                    and shp[2][0] == "slice" and shp[2][1] == c(None) and shp[2][3] == c(None):
+                # the same integer, written with another grouping of the three lengths
+                import sympy as _sp
+                from ..algebra import Untranslatable, is_zero, to_sympy
+                syms: dict = {}
+
+                def _leaf(t_):
+                    if t_[0] == "call" and t_[1] == ("n", "len"):
+                        return syms.setdefault(t_, _sp.Symbol(f"len{len(syms)}", integer=True))
+                    return None
+                try:
+                    ok_shape = is_zero(to_sympy(shp[2][2], {}, _leaf) - to_sympy(want_idx, {}, _leaf))
+                except Untranslatable:
+                    ok_shape = False
             ctx.ob("C17.R2", sim, "sample shape = current value shape minus batch and event "
                                   "dimensions", ok_shape, detail=short(shp or ()),
                    stmt="sample shape " + pretty(shp or ())[:160])
@@ -284,10 +299,23 @@ def check(ctx):
             guard = ("bool", "and", (("call", ("n", "isinstance"),
                                       (node_t, ("g", "liesel.model.nodes.Dist")), ()),
                                      cmp_("is", inp_t, ("a", node_t, "at"))))
-            from ..core.terms import pcs
-            g_true = set(pcs(guard, True))
-            rev_e = [e for e, pols in info if g_true <= set(pols)]
-            fwd_e = [e for e, pols in info if (guard, False) in pols]
+            # decided over the truth table of the two atoms, so it does not matter which
+            # arm carries the test or how it is negated / split
+            import itertools as _it2
+            from .common import _cond_value
+            A_, B_ = guard[2]
+
+            class _Asg(dict):
+                def __missing__(self, k):
+                    return False
+            when = {}
+            for e, pols in info:
+                when[e] = {(a_, b_) for a_, b_ in _it2.product((False, True), repeat=2)
+                           if all(_cond_value(x, _Asg({A_: a_, B_: b_})) == bool(p_)
+                                  for x, p_ in pols)}
+            rev_e = [e for e, w_ in when.items() if w_ == {(True, True)}]
+            fwd_e = [e for e, w_ in when.items()
+                     if w_ == {(False, False), (False, True), (True, False)}]
             ok_g = rev_e == [(node_t, inp_t)] and fwd_e == [(inp_t, node_t)]
             detail = f"reversed {[short(('tuple', e)) for e in rev_e]} if {short(guard)} " \
                      f"else {[short(('tuple', e)) for e in fwd_e]}"
